@@ -23,6 +23,7 @@ pub mod pmodel;
 pub mod fmodel;
 pub mod gen06;
 pub mod gen17;
+pub mod srcheck;
 
 pub use outcome::*;
 pub use report::*;
